@@ -63,7 +63,8 @@ package ast
 //@ modset setlog = $setN, $setKind, $setNode, $setField, $setIndex, $setSel, $setVal, $addN, $addKey, $addObj, $addFailed
 //@ modset asglog = $asgN, $asgVar, $asgVal, $asgExprSnap, $asgVarSnap
 //@ modset actlog = @setlog, @asglog, $exprRes, $varRes, $atomRes
-//@ modset thenlog = $thenN, $thenSeq
+//@ ghost var $thenFailN int             // then-statements that returned an error
+//@ modset thenlog = $thenN, $thenSeq, $thenFailN
 //@ ghost var $resetAllN int             // calls of WorkingMemory.ResetAll (C13: once per run, in the prologue)
 //@ ghost var $depth int                 // nesting depth of Expression.Evaluate calls
 //@ ghost var $inAction bool             // inside ThenScope.Execute
@@ -482,6 +483,7 @@ package ast
 //@   modifies @actions
 //@   ghost_entry $thenSeq = store($thenSeq, $thenN, e)
 //@   ghost_entry $thenN = $thenN + 1
+//@   ghost_exit $thenFailN = ite(err != nil, $thenFailN + 1, $thenFailN)
 //@   ensures forall re *RuleEntry :: old(re.Retracted) ==> re.Retracted
 //@   ensures forall d Ref :: old($complete[d]) ==> $complete[d]
 //@   panic_ensures forall re *RuleEntry :: old(re.Retracted) ==> re.Retracted
@@ -497,7 +499,8 @@ package ast
 //@   ensures forall d Ref :: old($complete[d]) ==> $complete[d]
 //@   panic_ensures forall re *RuleEntry :: old(re.Retracted) ==> re.Retracted
 //@   panic_ensures forall d Ref :: old($complete[d]) ==> $complete[d]
-//@   invariant@1 $thenN == old($thenN) + $i
+//@   ensures[C04,C14] noerrorswallowed: (err == nil ==> $thenFailN == old($thenFailN)) && (err != nil ==> $thenFailN == old($thenFailN) + 1)
+//@   invariant@1 $thenN == old($thenN) + $i && $thenFailN == old($thenFailN)
 //@   invariant@1 forall k int :: 0 <= k && k < $i ==> $thenSeq[old($thenN) + k] == e.ThenExpressions[k]
 //@   invariant@1 forall re *RuleEntry :: old(re.Retracted) ==> re.Retracted
 //@   invariant@1 forall d Ref :: old($complete[d]) ==> $complete[d]
